@@ -68,7 +68,7 @@ type arrEnv struct {
 
 func (e *arrEnv) violation(prop, what string) {
 	e.st.Violations = append(e.st.Violations, hx.Violation{
-		Property: prop, Stream: e.st.Stream, Seed: e.cfg.Seed, Program: e.prog, Step: e.step, What: what, Trace: e.w.Path,
+		Property: prop, Stream: e.st.Stream, Seed: e.cfg.Seed, Program: e.prog, Step: e.step, What: what, Trace: e.w.Path, Line: e.w.Lines,
 	})
 }
 
